@@ -270,6 +270,16 @@ def run(check):
                      'unreported')
 
 
+  # ------------------------------------------------------------------ interleaving with incoming stores (cache side)
+  from ..cachemodel import CacheModel
+  from .c02 import rule_lockset, rule_escape
+  cmx = CacheModel(cx)
+  r_il = check.rule('R-C03-store-interleaving', 10, 'a store() racing the drain either lands in the cache or in the drained batch: '
+                    'every cache access of store/drain holds the lock and no per-metric dict is used across critical sections')
+  rule_lockset(check, cmx, r_il)
+  rule_escape(check, cmx, r_il)
+
+
 def _contains(stmt, node):
   return any(x is node for x in ast.walk(stmt))
 
